@@ -6,6 +6,7 @@ explore_program : seeded random walks + exhaustive short histories over a progra
                   run_to_completion the projection of the State and the action events.
 pytest corpus   : the same recording around the repository's own tests/v2_x (harness/pytest_plugin.py).
 """
+from harness import REPO
 import copy
 import json
 import os
@@ -163,9 +164,9 @@ def pytest_corpus(ctx, tests="tests/v2_x"):
     outf = os.path.join(ctx.sub("pytest"), "traces.jsonl")
     env = dict(os.environ)
     env["VERIF_TRACE_OUT"] = outf
-    env["PYTHONPATH"] = "/repo:/verif"
+    env["PYTHONPATH"] = REPO + ":/verif"
     subprocess.run([sys.executable, "-m", "pytest", "-q", "--no-header", "-p", "no:cacheprovider", "-p", "harness.pytest_plugin",
-                    tests, "--timeout=600"], cwd="/repo", env=env, stdout=subprocess.DEVNULL, stderr=subprocess.DEVNULL)
+                    tests, "--timeout=600"], cwd=REPO, env=env, stdout=subprocess.DEVNULL, stderr=subprocess.DEVNULL)
     traces = []
     if os.path.exists(outf):
         with open(outf) as f:
